@@ -51,3 +51,8 @@ package resolver
 //@   opt scenario tsconfig_paths_overlap
 //@   site star-slice: store match.prefix requires len(prefix) + len(suffix) <= len(path)
 //@   loop 2 invariant fits: longestMatchPrefixLength != -1 ==> len(longestMatch.prefix) + len(longestMatch.suffix) <= len(path)
+
+// C11: a directory's real path (symlinks resolved; it becomes the module identity when preserveSymlinks is
+// off) may only be the link target reported by the file system or the PARENT'S REAL path joined with the
+// base name - never a path that still goes through a link.
+//@ flow real-path-from-real-path C11: func=(resolverQuery).dirInfoUncached ; in=resolver ; site=store dirInfo.absRealPath ; valuepath=call Symlink(*)|call Join(r.Resolver.fs,[phi:parentInfo.absRealPath,call Base(r.Resolver.fs,path)])
